@@ -115,6 +115,8 @@ def gen(rng, tier):
                               "short_writes": rng.random() < 0.3, "checklines": rng.choice([0, 1, 10])},
             "db_delete_at": db_delete_at, "gz_members": rng.choice([1, 1, 2, 3]),
             # what real annotation files carry between their feature lines
+            "reuse": {"inner": rng.choice(["list", "path", "string"]), "at": rng.randint(1, max(1, n)), "checklines": rng.choice([0, 1, 10])}
+            if rng.random() < 0.3 else None,
             "noise": rng.choice([None, None, {"directive": True, "comment": 2, "blank": 3, "tail_blank": True},
                                  {"directive": False, "comment": 0, "blank": 2, "tail_blank": False},
                                  {"directive": True, "comment": 1, "blank": 0, "tail_blank": True}])}
@@ -271,6 +273,45 @@ def run(case):
                 V.append(viol("C13.forms", "%s form (checklines=%d) gives a database different from the path form in %s: %d vs %d features" % (
                     label, v["checklines"], what, len(got["features"]), len(ref["features"])), kind="form_differs", form=sigform,
                     what=",".join(what)))
+
+        # ---- one DataIterator object used again: after the user's transform failed once on item k the import is retried with
+        #      the same object (force=True), then the object is imported a second time into another file
+        ru = case.get("reuse")
+        if ru and not V and ref is not None and (tr is None or tr["kind"] in ("identity", "tag", "drop_type")):
+            tr_once = dict(tr or {"kind": "identity"}, raise_once_at=ru["at"])
+            r1 = call(node, {"op": "create", "h": "ru", "db": "ru.db", "src": "ru", "data": _spec(case, ru["inner"], "ru.gff"),
+                             "wrap_dataiter": True, "transform": tr_once, "transform_on": "dataiter", "keep_data": "ru",
+                             "kw": dict(KW, checklines=ru["checklines"])})
+            if r1["ok"] and ru["at"] <= n:
+                V.append(viol("C13.transform", "the transform raised on item %d of %d and create_db succeeded" % (ru["at"], n),
+                              kind="failure_swallowed", form="dataiter/reused"))
+            elif not r1["ok"] and not (ru["at"] <= n and r1["exc"] == "SourceError"):
+                V.append(viol("C13.forms", "DataIterator(%s) import failed: %s %s" % (ru["inner"], r1["exc"], r1["msg"]), kind="form_failed",
+                              form="dataiter/reused", exc=r1["exc"]))
+            elif not call(node, {"op": "has", "name": "data/ru"}).get("has"):
+                probes["transform_failed_while_the_iterator_was_built"] = 1
+            else:
+                call(node, {"op": "gc"})
+                for db_, kw_, what in (("ru.db", dict(KW, force=True), "retried after the transform failed once"),
+                                       ("ru2.db", dict(KW), "imported a second time")):
+                    r2 = call(node, {"op": "create", "h": "ru", "db": db_, "src": "ru_", "data": {"form": "list", "lines": []}, "use_data": "ru",
+                                     "kw": kw_})
+                    if not r2["ok"]:
+                        V.append(viol("C13.forms", "the same DataIterator(%s) object %s: %s %s" % (ru["inner"], what, r2["exc"], r2["msg"]),
+                                      kind="reuse_failed", inner=ru["inner"], exc=r2["exc"]))
+                        break
+                    d2 = call(node, {"op": "dump", "h": "ru"})
+                    got = _strip(d2["dump"])
+                    if case.get("noise") and ru["inner"] not in TEXT_FORMS:
+                        got = dict(got, directives=ref["directives"])
+                    if got != ref:
+                        what2 = [k for k in ref if got[k] != ref[k]]
+                        V.append(viol("C13.forms", "the same DataIterator(%s) object %s gives a database different from the path form in %s: %d vs %d "
+                                      "features" % (ru["inner"], what, what2, len(got["features"]), len(ref["features"])), kind="reuse_differs",
+                                      inner=ru["inner"], what=",".join(what2)))
+                        break
+                else:
+                    probes["dataiterator_object_reused_after_failure_and_again"] = 1
 
         # ---- from_string specifics: the temporary copy of the text (its name, its lifetime, how it is written)
         sx = case.get("string_extras") or {}
